@@ -85,17 +85,12 @@ Print Assumptions C09_monotone_order_independent.
 (* the table form of "can resolve" is the instance of the general one *)
 Theorem C09_table_is_monotone_instance : monotone dep_ready /\ dep_ans = mono_ans dep_ready /\
   forall all i, reach all i <-> mreach all dep_ready i.
-Proof. split; [exact dep_ready_mono | split; [reflexivity | exact reach_mreach]]. Qed.
+Proof. exact table_is_monotone_instance. Qed.
 Print Assumptions C09_table_is_monotone_instance.
 
 (* non-vacuity of the monotone class: "waits for ANY ONE of" is monotone and not a table *)
-Definition any_ready (x : xref) (S : nat -> bool) : bool :=
-  match xdeps x with [] => true | ds => existsb S ds end.
 Example C09_any_ready_monotone : monotone any_ready.
-Proof.
-  intros x S S' Hsub H. unfold any_ready in *. destruct (xdeps x) as [|d ds]; [reflexivity|].
-  apply existsb_exists in H as [e [H1 H2]]. apply existsb_exists. exists e. split; [exact H1 | apply Hsub; exact H2].
-Qed.
+Proof. exact any_ready_monotone. Qed.
 Print Assumptions C09_any_ready_monotone.
 
 (* ---------------------------------------------------------------- providers that ask the resolver
